@@ -57,6 +57,10 @@ claimed = {
    text="One OS process per run executes the real program (cobra root command -> YAML -> Validate -> RunDaemon actor group) in a bubble; 1-3 termination signals are injected with os/signal's delivery semantics at seeded instants across all controller phases (start-up wait, analysis, first-second delay, between ticks, inside a cycle by decision index, same instant, after the Nth restore write) while restore-phase mode/PWM writes fail, are refused or silently ignored; after the process ended the driver files must satisfy (mode==original and original!=1) or PWM==255, the exit must be orderly and timely. Evidence, not proof.",
    note="Trusted: the signal-delivery model of the hook (non-blocking send per registered channel; panic on a closed registered channel halts the world as the real process death would), the driver model, the parent's reading of final files. Unsatisfiable fault plans (every attempted write of 255 made to fail) are not judged.",
    tech="deterministic simulation of the whole daemon process with signal/fault injection at seeded schedule points; final-state oracle"),
+ "C09": dict(cat="fault_enumeration", ref="§3/C09",
+   text="A fixed, enumerated single-fault space (3519 faults: 27 backend/curve combinations x component x fault kind x position) is injected one at a time into the real daemon running closed loop in its own process under the simulator; thorough covers the whole list, quick a window of it chosen by VERIF_SEED; pairs of faults are sampled. After each run: no Go panic, no unrequested exit that leaves a fan unrestored, and every fan either still regulated at the end or stopped and restored.",
+   note="Exhaustive only over the listed single-fault space; pairs are sampled. An orderly whole-daemon shutdown that restores every fan is accepted as 'stops regulating after restoring'. EIO/EINVAL/timeouts are returned by the seam; other faults are produced on the real files and scripts.",
+   tech="deterministic simulation with enumerated fault injection (one OS process per fault), survival + restore oracle"),
 }
 checks = []
 for p in props:
